@@ -3,7 +3,7 @@
    Proofs: C16/Lemmas.v (string primitives), C16/Roundtrip.v (reader on the writer's output). *)
 From Coq Require Import List NArith ZArith Permutation.
 Import ListNotations.
-Require Import Base.Wire Base.PyStr C16.Model C16.Lemmas C16.Roundtrip C16.Files.
+Require Import Base.Wire Base.PyStr C16.Model C16.Lemmas C16.Roundtrip C16.Files C16.Config.
 
 (* Full statement (refuted on the pinned tree, findings F1/F2/...):
      forall db, read_users (write_users db) = (UState None (sort_users db) (max_id (sort_users db) 0), None)
@@ -180,3 +180,37 @@ Theorem C16_ignores_roundtrip_refuted :
   forall now, read_ignores (write_ignores now [(h_hash, Exp 0%Z None)]) = [].
 Proof. exact ignore_refuted. Qed.
 Print Assumptions C16_ignores_roundtrip_refuted.
+
+(* ---------------------------------------------------------------------------------------------
+   Configuration.  The records were validated under the configuration in force when they were added; the
+   property demands that the reload does not depend on the configuration in force at load time.
+   T16.CONF_READ_* is the set of conf.supybot options read by the code reachable (typed call graph over
+   ircdb.py and unpreserve.py, regenerated from the source) from each reader and from the writers. *)
+Theorem C16_readers_read_no_option :
+  gen.T16.CONF_READ_CHAN_READER = [] /\ gen.T16.CONF_READ_NET_READER = [] /\
+  gen.T16.CONF_READ_IGN_READER = [] /\ gen.T16.CONF_READ_WRITERS = [].
+Proof. exact readers_read_no_option. Qed.
+Print Assumptions C16_readers_read_no_option.
+
+(* the channel reader of the model takes the load-time configuration (strictRfc) as an input and follows
+   the source (tables CHAN_READER_*_VIA_SETTER); it gives the same result under every configuration *)
+Theorem C16_channel_reader_ignores_config :
+  forall cfg text, read_channels_cf cfg text = read_channels text.
+Proof. exact read_channels_cf_eq. Qed.
+Print Assumptions C16_channel_reader_ignores_config.
+
+Theorem C16_channels_roundtrip_any_config :
+  forall cfg_save cfg_load db, chan_dom db = true ->
+  snd (read_channels_cf cfg_load (write_channels_cf cfg_save db)) = None
+  /\ cs_name (fst (read_channels_cf cfg_load (write_channels_cf cfg_save db))) = None
+  /\ cs_db (fst (read_channels_cf cfg_load (write_channels_cf cfg_save db)))
+     = map (fun kc => (fst kc, canon_chan (snd kc))) (sort_named db).
+Proof. exact channels_roundtrip_any_config. Qed.
+Print Assumptions C16_channels_roundtrip_any_config.
+
+Theorem C16_ignores_roundtrip_any_config :
+  forall (cfg_save cfg_load : config) now db, ign_dom now db = true ->
+  read_ignores_cf cfg_load (write_ignores_cf cfg_save now db)
+  = map (fun he => (fst he, e_int (snd he))) (filter (ign_kept now) db).
+Proof. exact ignores_roundtrip_any_config. Qed.
+Print Assumptions C16_ignores_roundtrip_any_config.
